@@ -1,20 +1,139 @@
-"""Generators, `yield`, `with` on @contextmanager functions."""
+"""Generators, `yield`, `with` / `async with` (context managers written as generators or as __aenter__/__aexit__ classes).
+
+A generator function is never run "lazily": its body is executed in its own frame and every `yield v` runs the consumer
+(the body of the `with` statement, or one iteration of the `for` loop that iterates the generator) at that very point.
+Exceptions raised by the consumer therefore propagate through the generator's `try/finally` exactly as CPython throws
+them into the generator at the yield (contextlib semantics); a missing try/finally shows up as code after the yield not
+being executed.
+"""
 import ast
 import z3
 
 from .vtypes import (RefS, StrS, NULL, Val, NONE, REG, sort_of, is_ref, is_opt, strip_opt, FALSE, TRUE, ty_str)
-from .state import (Frame, PathEnd, Unsupported, ReturnExc, BreakExc, ContinueExc, RaiseExc)
+from .state import (Frame, PathEnd, Unsupported, ReturnExc, BreakExc, ContinueExc, RaiseExc, ExcVal)
 from . import specs, calls
 
 
+class _YieldHandler:
+    def __init__(self, fn):
+        self.fn = fn
+        self.count = 0
+
+
 def exec_yield(I, st, node):
-    raise Unsupported("yield (line %s)" % getattr(node, "lineno", "?"))
+    """`yield v` inside a generator frame: hand v to the consumer registered for this frame"""
+    h = getattr(st.frame, "yield_handler", None)
+    f = st.frame
+    while h is None and f is not None:
+        f = f.parent
+        h = getattr(f, "yield_handler", None) if f is not None else None
+    if h is None:
+        raise Unsupported("yield outside a supported generator use (line %s)" % getattr(node, "lineno", "?"))
+    v = I.eval(st, node.value) if node.value is not None else NONE
+    h.count += 1
+    return h.fn(v)
+
+
+def run_generator(I, st, fi, argmap, on_yield):
+    """execute generator function fi with arguments; on_yield(value) is called at every yield (in the generator frame
+    context; it must switch frames itself).  Returns the number of yields on this path."""
+    fr = Frame(fi, fi.module)
+    fr.vars.update(argmap)
+    fr.yield_handler = _YieldHandler(on_yield)
+    st.frames.append(fr)
+    st.depth += 1
+    try:
+        try:
+            I.exec_block(st, fi.node.body)
+        except ReturnExc:
+            pass
+    finally:
+        st.depth -= 1
+        st.frames.pop()
+    return fr.yield_handler.count
+
+
+def _run_in_frame(I, st, frame, fn):
+    """run fn() with `frame` as the current frame (the consumer's frame), then restore the generator frames"""
+    saved = st.frames
+    idx = saved.index(frame)
+    st.frames = saved[: idx + 1]
+    try:
+        return fn()
+    finally:
+        st.frames = saved
 
 
 def exec_with(I, st, node, is_async=False):
-    raise Unsupported("with statement (line %s)" % getattr(node, "lineno", "?"))
+    if len(node.items) != 1:
+        # nested items: `with a, b:` == with a: with b:
+        inner = ast.With(items=node.items[1:], body=node.body, lineno=node.lineno, col_offset=node.col_offset) if not is_async \
+            else ast.AsyncWith(items=node.items[1:], body=node.body, lineno=node.lineno, col_offset=node.col_offset)
+        outer = type(node)(items=node.items[:1], body=[inner], lineno=node.lineno, col_offset=node.col_offset)
+        return exec_with(I, st, outer, is_async)
+    item = node.items[0]
+    cm = I.eval(st, item.context_expr)
+    consumer = st.frame
+    if cm.ty == "CtxMgr":
+        fi, argmap = cm.term
+        c = I.db.get(fi.qualname)
+        if c is not None and not c.inline and not (I.current_target == fi.qualname):
+            raise Unsupported("context manager %s has a contract; only inlining is supported" % fi.qualname)
+        I.inlined.add(fi.qualname)
+
+        def on_yield(v):
+            def body():
+                if item.optional_vars is not None:
+                    I.assign(st, item.optional_vars, v)
+                I.exec_block(st, node.body)
+            _run_in_frame(I, st, consumer, body)
+            return NONE
+        n = run_generator(I, st, fi, argmap, on_yield)
+        if n != 1:
+            # contextlib raises RuntimeError("generator didn't yield") / "didn't stop"
+            I.raise_(st, "RuntimeError", node)
+        return
+    base = strip_opt(cm.ty)
+    if is_ref(base):
+        enter = I.find_method(base[1], "__aenter__" if is_async else "__enter__")
+        exit_ = I.find_method(base[1], "__aexit__" if is_async else "__exit__")
+        if enter is not None and exit_ is not None:
+            from . import asyncio_model
+            v = calls.call_repo(I, st, enter, [cm], {}, node)
+            if v.ty == "Coro":
+                v = asyncio_model.await_value(I, st, v, node)
+            if item.optional_vars is not None:
+                I.assign(st, item.optional_vars, v)
+            exc = None
+            try:
+                I.exec_block(st, node.body)
+            except RaiseExc as r:
+                exc = r
+            except (ReturnExc, BreakExc, ContinueExc):
+                r2 = calls.call_repo(I, st, exit_, [cm, NONE, NONE, NONE], {}, node)
+                if r2.ty == "Coro":
+                    asyncio_model.await_value(I, st, r2, node)
+                raise
+            if exc is None:
+                r2 = calls.call_repo(I, st, exit_, [cm, NONE, NONE, NONE], {}, node)
+                if r2.ty == "Coro":
+                    asyncio_model.await_value(I, st, r2, node)
+                return
+            ev = Val("Exc", st.fresh(RefS, "exc"), extra=exc.exc)
+            tv = Val("Type", ("exc", exc.exc.cls))
+            r2 = calls.call_repo(I, st, exit_, [cm, tv, ev, Val("Any", st.fresh(RefS, "tb"))], {}, node)
+            if r2.ty == "Coro":
+                r2 = asyncio_model.await_value(I, st, r2, node)
+            # a truthy return value swallows the exception
+            if r2.ty != "NoneT" and st.decide(I.truthy(st, r2)):
+                return
+            raise exc
+    raise Unsupported("with statement on %s (line %s)" % (ty_str(cm.ty), node.lineno))
 
 
+# ---------------------------------------------------------------------------------------------------------------------
+# for x in <generator call>: consumer side by contract (yields=...), or producer inlined (inline_generator=True)
+# ---------------------------------------------------------------------------------------------------------------------
 def exec_for_filter(I, st, node, payload):
     _, fn, src = payload
     if src.ty != "Gen":
@@ -23,14 +142,54 @@ def exec_for_filter(I, st, node, payload):
 
 
 def exec_for_gen(I, st, node, payload, filt=None):
-    """consumer side of a generator: the loop is cut at its invariant; the generator's contract says what an
+    gfi, gargs = payload
+    gc = I.db.get(gfi.qualname)
+    if gc is not None and gc.yields and gc.yields.get("inline"):
+        return exec_for_gen_inline(I, st, node, gfi, gargs, filt)
+    if gc is None or not gc.yields:
+        return exec_for_gen_inline(I, st, node, gfi, gargs, filt)
+    return exec_for_gen_contract(I, st, node, gfi, gargs, gc, filt)
+
+
+def exec_for_gen_inline(I, st, node, gfi, gargs, filt):
+    """run the generator's own code; every yield runs one iteration of the consumer's loop body.  The generator's loop is
+    cut at the invariant of the *consumer's* loop (same ordinal bookkeeping as any other loop of the consumer)."""
+    from . import loops
+    consumer = st.frame
+    k, ls = loops.loop_spec(I, st, node)
+    I.inlined.add(gfi.qualname)
+
+    def on_yield(v):
+        def body():
+            if filt is not None:
+                t = I.truthy(st, calls.call_value(I, st, filt, [v], {}, node))
+                if not st.decide(t):
+                    return
+            I.assign(st, node.target, v)
+            try:
+                I.exec_block(st, node.body)
+            except ContinueExc:
+                pass
+        _run_in_frame(I, st, consumer, body)
+        return NONE
+    # the generator's loops use the consumer's loop spec
+    saved = getattr(st, "gen_loop_override", None)
+    st.gen_loop_override = (gfi.qualname, consumer, k, ls, node)
+    try:
+        try:
+            run_generator(I, st, gfi, gargs, on_yield)
+        except BreakExc:
+            return
+    finally:
+        st.gen_loop_override = saved
+    I.exec_block(st, node.orelse)
+
+
+def exec_for_gen_contract(I, st, node, gfi, gargs, gc, filt=None):
+    """consumer side of a generator by contract: the loop is cut at its invariant; the generator's contract says what a
     yielded item looks like (`yields.facts`, over `item` and `SEEN`), what the generator itself may modify and what
     holds at exhaustion (`ensures`, may mention SEEN = the set of items yielded)."""
     from . import loops
-    gfi, gargs = payload
-    gc = I.db.get(gfi.qualname)
-    if gc is None or not gc.yields:
-        raise Unsupported("generator %s has no `yields` contract" % gfi.qualname)
     k, ls = loops.loop_spec(I, st, node)
     genv = dict(gargs)
     site = "%s.loop[%d].gen[%s]" % (I.short(st.frame.func), k, gfi.name)
@@ -100,8 +259,6 @@ def exec_for_gen(I, st, node, payload, filt=None):
             st.assume(specs.eval_clause(I, st, cl, fenv, gfi))
     finally:
         st.old_heap, st.old_alloc = saved_old
-    if filt is not None:
-        st.ghost["$filter_of_last_gen"] = filt
     st.locals["SEEN_" + str(k)] = Val(setty, seen)
     I.exec_block(st, node.orelse)
 
